@@ -16,8 +16,8 @@ from ref.grid import Grid
 from .common import viol, short_exc, exc_site
 
 PROPERTY = "C15"
-RULE = ("E3: 8 portfolios (contracts + storage; + transport; + multi-commodity; plant with fuel node (MIP); order book; coarse-frequency "
-        "asset; periodic asset; structured asset) x all 16 index masks over T=4 steps (as array and as list) + 8 date positions "
+RULE = ("E3: 11 portfolios (contracts + storage; + transport; + multi-commodity; plant with fuel node (MIP); order book; coarse-frequency "
+        "asset; periodic asset; structured asset; capacities from a price series; scaled asset with a free scale; CHP with heat, ramp and start costs) x all 16 index masks over T=4 steps (as array and as list) + 8 date positions "
         "(before the start, each grid point, between grid points, after the end; as datetime and as date) x new prices in {A, B} x grid "
         "passed / set previously; each case is the history [set-up+optimise A, rebuild fixed, re-optimise]; distinct = canonical case; "
         "non-trivial = window contains at least one variable with non-zero previous value and the history completed")
@@ -28,7 +28,7 @@ EXPLANATION = "full product of window masks / dates x portfolios; bound equality
 MIN_NONTRIVIAL_FRACTION = 0.3
 MAX_S = {"quick": 900, "thorough": 7200}
 
-PORTFOLIOS = ["simple", "transport", "multicommodity", "plantfuel", "orderbook", "coarse", "periodic", "structured", "series_caps"]
+PORTFOLIOS = ["simple", "transport", "multicommodity", "plantfuel", "orderbook", "coarse", "periodic", "structured", "series_caps", "scaled", "chp"]
 GRID = dict(start="2021-01-01T00:00", end="2021-01-02T00:00", freq="6h", mtu="h", tz=None)
 
 
@@ -61,6 +61,14 @@ def portfolio(name):
     if name == "series_caps":
         # must-run feed-in whose capacity is a series of the price data: with new prices the bounds inside the window change
         return [base[0], dict(type="SimpleContract", name="wind", nodes=["n1"], min_cap="wind", max_cap="wind"), base[2]]
+    if name == "scaled":
+        # the scale variable (with the fix costs) belongs to the first time step
+        b = dict(type="Storage", name="b", nodes=["n1"], size=6.0, cap_in=1.0, cap_out=1.5, eff_in=0.95)
+        return [base[0], dict(type="ScaledAsset", name="sc", base_asset=b, min_scale=0.0, max_scale=2.0, norm_scale=1.0, fix_costs=0.02), base[1]]
+    if name == "chp":
+        return [base[0], dict(type="SimpleContract", name="heat", nodes=["nh"], price="q", min_cap=-3.0, max_cap=0.0),
+                dict(type="CHPAsset", name="chp", nodes=["n1", "nh"], price="ec", min_cap=1.0, max_cap=6.0, max_share_heat=0.5, conversion_factor_power_heat=0.8,
+                     start_costs=1.5, ramp=3.0, time_already_off=10), base[2]]
     if name == "structured":
         inner = [dict(type="Storage", name="isto", nodes=["ni"], size=6.0, cap_in=1.0, cap_out=1.0),
                  dict(type="Transport", name="itr", nodes=["ni", "n1"], min_cap=-2.0, max_cap=2.0, efficiency=0.95)]
